@@ -7,11 +7,15 @@
      C04_main : forall s, accepts cfg_fixed s = true <->
                   exists t, json_text s t /\ jdepth t <= 256 /\ dup_consistent t = true
 
-   Proved towards it: soundness of the reference recogniser for the inductive grammar,
-   stage 2 in the soundness direction (tokens are RFC lexemes), and under C05 the
-   structural invariants of lexer, parser and walk.  NOT proved: completeness of the lexer
-   (longest match yields exactly the RFC tokenisation), stage 1 (the recovering parser is
-   silent and the walk succeeds iff the token list is grammatical) and their composition.
+   PROVED (C04_main below, for every text of Unicode scalar values).  The two halves:
+   <=  C04_lexer_complete / C04_parser_complete / C04_walk_complete compose into
+       C04_grammatical_converted (a grammatical text of depth <= 256 is converted exactly like
+       its tree) and C04_grammatical_accepted;
+   =>  C04_lexer_sound / C04_parser_sound / C04_tree_text (a silent pipeline run yields an RFC
+       derivation of depth <= 256) + C04_dup_consistent_iff.
+   The reference recogniser is exact (C04_reference_exact), so "model = reference" is a theorem
+   (C04_accepts_is_reference) and the correspondence of the check only has to tie the MODEL to the
+   implementation.
 
    Before the fixes F2 (honour the parser diagnostics) and F3 (bare CR is whitespace) the
    statement was FALSE of the code in both directions; the theorems below keep one witness
@@ -20,7 +24,9 @@
 From Coq Require Import List Bool NArith.
 Import ListNotations.
 From JS Require Import Model.Base Model.Shape Model.Sem Model.Infer Model.Lexer Model.Parser
-  Model.Walk Model.TextApi Model.JsonRef Model.TextClasses Proofs.JsonRefSound Proofs.TextLexSpec.
+  Model.Walk Model.TextApi Model.JsonRef Model.TextClasses Proofs.JsonRefSound Proofs.TextLexSpec
+  Proofs.CstTree Proofs.LexComplete Proofs.ParseComplete Proofs.WalkComplete Proofs.RefComplete Proofs.TextComplete
+  Proofs.LexSound Proofs.ParseSound Proofs.TextSound.
 
 (* the oracle of the check is sound for the inductive grammar: what the executable
    recogniser accepts is a JSON-text of RFC 8259 with exactly that tree *)
@@ -51,6 +57,141 @@ Theorem C04_string_token_sound_partial : forall cf c r w rest pos, Forall scalar
   lex1 cf c r = (LOk TString, w, rest) -> check_string cf w pos = Some [] -> exists body, string_lit w body.
 Proof. exact string_token_sound. Qed.
 Print Assumptions C04_string_token_sound_partial.
+
+(* ---------- completeness: grammatical texts are accepted, and converted like their tree ----------
+   The reference recogniser is exact for the inductive grammar (so the grammar is unambiguous) *)
+Theorem C04_reference_complete : forall s t, json_text s t -> ref_json s = Some t.
+Proof. exact ref_json_complete. Qed.
+Print Assumptions C04_reference_complete.
+
+Theorem C04_reference_exact : forall s t, ref_json s = Some t <-> json_text s t.
+Proof. exact ref_json_exact. Qed.
+Print Assumptions C04_reference_exact.
+
+Theorem C04_grammar_unambiguous : forall s t t', json_text s t -> json_text s t' -> t = t'.
+Proof. exact json_text_unique. Qed.
+Print Assumptions C04_grammar_unambiguous.
+
+(* stage 2, completeness (longest match = RFC tokenisation): on a grammatical text nested at most
+   256 deep the lexer is silent, does not hit the nesting cap, and emits the tokens of a CST tree
+   of the document: one Number / String / literal / structural token per lexeme, whitespace between *)
+Theorem C04_lexer_complete : forall s d, json_text s d -> jdepth d <= 256 ->
+  exists t, jfile s d t /\ lex cfg_now s = {| l_toks := ctoks t; l_diags := []; l_status := LDone |}.
+Proof. exact lex_complete_now. Qed.
+Print Assumptions C04_lexer_complete.
+
+(* stage 1, completeness: on the tokens of a CST tree of a document the recovering parser is
+   silent and builds exactly the pre-order node vector of that tree *)
+Theorem C04_parser_complete : forall src d t mx ld, jfile src d t ->
+  pr_status (parse_tokens (ctoks t) mx ld) = POk /\
+  pr_diags (parse_tokens (ctoks t) mx ld) = ld /\
+  c_nodes (pr_cst (parse_tokens (ctoks t) mx ld)) = cflat 0 t /\
+  c_spans (pr_cst (parse_tokens (ctoks t) mx ld)) = map snd (ctoks t).
+Proof. exact parse_complete. Qed.
+Print Assumptions C04_parser_complete.
+
+(* the walk on that node vector is the tree-level inference *)
+Theorem C04_walk_complete : forall src c d t, jfile src d t -> c_nodes c = cflat 0 t ->
+  c_spans c = map snd (ctoks t) -> parse_cst c src = lift_infer (infer_text d).
+Proof. exact walk_complete. Qed.
+Print Assumptions C04_walk_complete.
+
+(* stage 3, the <= half of C04_main in its strong form: a grammatical text of depth <= 256 is
+   converted exactly like its tree (shape, or the duplicate-conflict error) ... *)
+Theorem C04_grammatical_converted : forall s d, json_text s d -> jdepth d <= 256 ->
+  from_str_m cfg_now s = lift_infer (infer_text d).
+Proof. exact from_str_complete_now. Qed.
+Print Assumptions C04_grammatical_converted.
+
+(* ... hence accepted when its duplicates are consistent *)
+Theorem C04_grammatical_accepted : forall s,
+  (exists d, json_text s d /\ jdepth d <= 256 /\ dup_consistent d = true) -> accepts cfg_now s = true.
+Proof. exact grammatical_accepted_now. Qed.
+Print Assumptions C04_grammatical_accepted.
+
+(* on grammatical texts of depth <= 256 ([text_of s d]) the three other text entry points ARE the
+   tree-level entry points of Model/Api.v: every tree-level API theorem transfers to texts *)
+Theorem C04_from_sources_is_tree_api : forall srcs ds, Forall2 text_of srcs ds ->
+  from_sources_m cfg_now srcs = lift_api (Api.from_sources_tree ds).
+Proof. exact from_sources_complete_now. Qed.
+Print Assumptions C04_from_sources_is_tree_api.
+
+Theorem C04_is_superset_is_tree_api : forall sh s d, text_of s d ->
+  is_superset_m cfg_now sh s = Ok (Api.is_superset_tree sh d).
+Proof. exact is_superset_complete_now. Qed.
+Print Assumptions C04_is_superset_is_tree_api.
+
+Theorem C04_is_superset_checked_is_tree_api : forall sh s d, text_of s d ->
+  is_superset_checked_m cfg_now sh s = WalkComplete.lift_o (Api.is_superset_checked_tree sh d).
+Proof. exact is_superset_checked_complete_now. Qed.
+Print Assumptions C04_is_superset_checked_is_tree_api.
+
+(* ---------- soundness: what is accepted is JSON ----------
+   stage 2, soundness for the whole token list: a silent lexer run on scalar values means the text
+   is the concatenation of RFC lexemes (String tokens are RFC strings, no Error token), spans are
+   byte positions and the bracket nesting never exceeded 256 *)
+Theorem C04_lexer_sound : forall s, Forall scalar s -> l_diags (lex cfg_now s) = [] ->
+  lexes 0 s 0 0 (l_toks (lex cfg_now s)).
+Proof. exact (lex_sound cfg_now). Qed.
+Print Assumptions C04_lexer_sound.
+
+(* stage 1, soundness: a silent run of the recovering parser on such tokens means the token list
+   is a tree of the JSON token grammar (Parser::error is never suppressed along a silent run) *)
+Theorem C04_parser_sound : forall toks mx, clean toks -> mx <> 0%N ->
+  pr_diags (parse_tokens toks mx []) = [] -> exists t, gfile t /\ toks = ctoks t.
+Proof. exact parse_sound. Qed.
+Print Assumptions C04_parser_sound.
+
+(* a token tree over a silently lexed text is an RFC derivation of depth <= 256 *)
+Theorem C04_tree_text : forall t s, gfile t -> lexes 0 s 0 0 (ctoks t) ->
+  exists d, json_text s d /\ jdepth d <= 256.
+Proof. exact tree_text. Qed.
+Print Assumptions C04_tree_text.
+
+(* the pairwise duplicate predicate is exactly "inference succeeds" *)
+Theorem C04_dup_consistent_iff : forall d, dup_consistent d = true <-> exists sh, infer_text d = Ok sh.
+Proof. exact dup_consistent_iff. Qed.
+Print Assumptions C04_dup_consistent_iff.
+
+(* ---------- C04_main: the library accepts exactly RFC 8259 (+- duplicate conflict, +- depth 256) ----------
+   [Forall scalar s]: the characters are Unicode scalar values (always true of a Rust &str; in the
+   model characters are unbounded naturals, see C04_scalar_needed) *)
+Theorem C04_main : forall s, Forall scalar s ->
+  (accepts cfg_now s = true <-> exists t, json_text s t /\ jdepth t <= 256 /\ dup_consistent t = true).
+Proof. exact c04_main_now. Qed.
+Print Assumptions C04_main.
+
+(* ... i.e. the executable oracle of the check IS the model's acceptance *)
+Theorem C04_accepts_is_reference : forall s, Forall scalar s -> accepts cfg_now s = ref_accepts s.
+Proof. exact accepts_ref_accepts. Qed.
+Print Assumptions C04_accepts_is_reference.
+
+Theorem C04_not_json_rejected : forall s, Forall scalar s -> (forall t, ~ json_text s t) -> accepts cfg_now s = false.
+Proof. exact not_json_rejected. Qed.
+Print Assumptions C04_not_json_rejected.
+
+Theorem C04_too_deep_rejected : forall s t, Forall scalar s -> json_text s t -> 256 < jdepth t -> accepts cfg_now s = false.
+Proof. exact too_deep_rejected. Qed.
+Print Assumptions C04_too_deep_rejected.
+
+Theorem C04_is_superset_rejects_non_json : forall sh s, Forall scalar s -> (forall t, ~ json_text s t) ->
+  is_superset_m cfg_now sh s = Ok false.
+Proof. exact is_superset_rejects_non_json. Qed.
+Print Assumptions C04_is_superset_rejects_non_json.
+
+Theorem C04_superset_checked_rejects_non_json : forall sh s, Forall scalar s -> (forall t, ~ json_text s t) ->
+  exists e, is_superset_checked_m cfg_now sh s = Err e.
+Proof. exact superset_checked_rejects_non_json. Qed.
+Print Assumptions C04_superset_checked_rejects_non_json.
+
+Theorem C04_from_sources_sound : forall srcs sh, Forall (Forall scalar) srcs -> from_sources_m cfg_now srcs = Ok sh ->
+  Forall (fun s => exists t, json_text s t /\ jdepth t <= 256 /\ dup_consistent t = true) srcs.
+Proof. exact from_sources_sound. Qed.
+Print Assumptions C04_from_sources_sound.
+
+Theorem C04_scalar_needed : accepts cfg_now [34; 2000000; 34]%N = true /\ ref_accepts [34; 2000000; 34]%N = false.
+Proof. exact scalar_needed. Qed.
+Print Assumptions C04_scalar_needed.
 
 Definition w_unterminated_array : list char := [91; 49; 44; 50]%N.   (* [1,2 *)
 Definition w_unterminated_object : list char := [123; 34; 97; 34; 58; 49]%N.   (* {'a':1 *)
